@@ -35,6 +35,7 @@ def streams(rng, tier):
         ("random", [G.random_call(rng, "win") for _ in range(700 if q else 5000)]),
         ("history", G.with_history(rng, [G.random_call(rng, "win") for _ in range(250 if q else 2500)])),
         ("malformed", G.malformed("win")),
+        ("classes", G.class_calls(rng, 300 if q else 3000)),   # complex / Fraction / Decimal / float / timedelta values: oracle alone
     ]
 
 
@@ -44,12 +45,16 @@ observe = G.observe
 def emit(case, obs):
     if "fatal" in obs:
         return "CBad"
+    if case["op"] == "cls":
+        return "CSkip"                                       # decided by the oracle alone
     return G.emit_call(case, obs["win"], True)
 
 
 def oracle(case, obs):
     if "fatal" in obs:
         return f"setup-raises: {obs['fatal']}"
+    if case["op"] == "cls":
+        return obs["win_verdict"]
     w, a = obs["win"], obs["agg"]
     if G.domain(w) != "ok":
         return None
@@ -89,6 +94,8 @@ def oracle(case, obs):
 
 
 def nontrivial(case, obs):
+    if case["op"] == "cls":
+        return "fatal" not in obs and any(t[0] == "N" for t in case["vals"]) and len({json.dumps(k) for k in case["keys"]}) >= 2
     if "fatal" in obs or G.domain(obs["win"]) != "ok":
         return False
     w = obs["win"]
@@ -99,6 +106,8 @@ def nontrivial(case, obs):
 def describe(case, obs, stream):
     if "fatal" in obs:
         return [f"{stream}:fatal"]
+    if case["op"] == "cls":
+        return [f"classes:{case['cls']}"] + [f"classes:fn:{f}" for f in obs.get("ran", [])]
     w = obs["win"]
     dom = G.domain(w)
     if dom != "ok":
@@ -111,6 +120,10 @@ def describe(case, obs, stream):
 
 
 def shrink(case):
+    if case["op"] == "cls":
+        for i in range(len(case["keys"])):
+            yield dict(case, keys=case["keys"][:i] + case["keys"][i + 1:], vals=case["vals"][:i] + case["vals"][i + 1:])
+        return
     yield from G.shrink_call(case)
 
 
